@@ -163,24 +163,26 @@ func d3Obligations(w *World, r *Report, fe *FactEngine, rule string, fn *ssa.Fun
 			if !isBytesLike(s.X.Type()) {
 				return
 			}
-			c, ok := intConst(s.Index)
-			if !ok {
+			x = s.X
+			if need, desc = indexNeed(x, s.Index); need < 0 {
 				return
 			}
-			x = s.X
-			need = c + 1
-			desc = fmt.Sprintf("index %s[%d]", pathOf(x), c)
 		case *ssa.Index:
 			if !isBytesLike(s.X.Type()) {
 				return
 			}
-			c, ok := intConst(s.Index)
-			if !ok {
+			x = s.X
+			if need, desc = indexNeed(x, s.Index); need < 0 {
+				return
+			}
+		case *ssa.Lookup: // s[i] on a string
+			if _, isMap := s.X.Type().Underlying().(*types.Map); isMap || !isBytesLike(s.X.Type()) {
 				return
 			}
 			x = s.X
-			need = c + 1
-			desc = fmt.Sprintf("index %s[%d]", pathOf(x), c)
+			if need, desc = indexNeed(x, s.Index); need < 0 {
+				return
+			}
 		default:
 			return
 		}
@@ -191,6 +193,18 @@ func d3Obligations(w *World, r *Report, fe *FactEngine, rule string, fn *ssa.Fun
 		ok, why := fe.HoldsVal(in, x, kLenMin, need)
 		r.check(ok, rule, shortFn(fn)+"/"+desc, lineOf(w, in), fmt.Sprintf("%s needs len(%s) >= %d on every path", desc, px, need), why)
 	})
+}
+
+// indexNeed: the least length x must have for x[idx] not to panic, when idx is a constant or len(x)-c; -1 when the index
+// is another run-time value (outside this rule).
+func indexNeed(x, idx ssa.Value) (int64, string) {
+	if c, ok := intConst(idx); ok {
+		return c + 1, fmt.Sprintf("index %s[%d]", pathOf(x), c)
+	}
+	if b := boundOf(idx); b.ok && b.isLen && b.path == pathOf(x) && b.c < 0 {
+		return -b.c, fmt.Sprintf("index %s[len%+d]", pathOf(x), b.c)
+	}
+	return -1, ""
 }
 
 func boundStr(v ssa.Value, b bound) string {
@@ -281,7 +295,7 @@ func runC15(w *World, r *Report) {
 	}
 
 	r.rule("D3-bounds", "constant and len-relative index/slice bounds on byte slices/strings are covered by a dominating length fact", 3)
-	for _, fn := range append(w.RepoFuncs("wallet"), fns...) {
+	for _, fn := range append(append(w.RepoFuncs("wallet"), fns...), w.RepoFuncs("cache", "webhooks")...) {
 		if fn.Pkg.Pkg.Name() == "wallet" && !strings.Contains(fn.String(), "Helper") {
 			continue
 		}
